@@ -76,6 +76,16 @@ class RaterTap:
 
 
 ORACLE_RATERS = {}
+# documented regressor defaults as they are when the process starts (the
+# oracle must not follow a module-level default that was changed later)
+REG0 = {}
+
+
+def _freeze_regressor_defaults():
+    if not REG0:
+        from nanite.rate.regressors import reg_dict
+        for k, (cls, kw) in reg_dict.items():
+            REG0[k] = (cls, copy.deepcopy(kw))
 
 
 def oracle_rater(regressor, training_set, names, lda, ts_key):
@@ -85,6 +95,7 @@ def oracle_rater(regressor, training_set, names, lda, ts_key):
         get_available_training_sets
     from nanite.rate.regressors import reg_dict
     key = (regressor, ts_key, tuple(names) if names else None, lda)
+    _freeze_regressor_defaults()
     if key not in ORACLE_RATERS:
         if isinstance(training_set, tuple):
             ts = (training_set[0].copy(), training_set[1].copy())
@@ -94,7 +105,7 @@ def oracle_rater(regressor, training_set, names, lda, ts_key):
             else:
                 path = training_set
             ts = IndentationRater.load_training_set(path=path, names=names)
-        reg_cl, kw = reg_dict[regressor]
+        reg_cl, kw = REG0[regressor]
         ORACLE_RATERS[key] = IndentationRater(regressor=reg_cl(**dict(kw)),
                                               training_set=ts, names=names,
                                               lda=lda)
@@ -147,6 +158,8 @@ def build_state(rng, cid):
         spec = fitlab.draw_curve_spec(
             rng, models=["hertz_para", "sneddon_spher_approx"],
             npts=(300, 700, 1500), noise_snr=(300, 50, 15), with_tip=True)
+        # (a third of the curves come without a recorded tip position)
+        spec["with_tip"] = bool(rng.random() < .67)
 
         def base():
             return fitlab.build_curve(spec)[0]
@@ -154,7 +167,8 @@ def build_state(rng, cid):
     state = ["fresh", "preprocessed-only", "fitted", "fitted",
              "settings-edited-after-fit", "unsuccessful-fit", "refitted",
              "retract-fitted", "unsuccessful-multi-pass-fit",
-             "fitted-unusual"][int(rng.integers(10))]
+             "fitted-unusual", "settings-only",
+             "reprocessed-without-tip-position"][int(rng.integers(12))]
     odd = fitlab.draw_odd_fit(rng)
     if state == "fitted-unusual":
         if isinstance(desc, dict):
@@ -168,6 +182,11 @@ def build_state(rng, cid):
     def build():
         i = base()
         if state == "fresh":
+            return i
+        if state == "settings-only":
+            # nothing preprocessed, nothing fitted, only settings stored
+            i.fit_properties["model_key"] = mk
+            i.fit_properties["weight_cp"] = 3e-7
             return i
         i.apply_preprocessing(list(pipe))
         if state == "preprocessed-only":
@@ -195,6 +214,9 @@ def build_state(rng, cid):
             i.fit_model(model_key=mk, range_x=[-2e-6, 1e-6], weight_cp=0)
         elif state == "retract-fitted":
             i.fit_model(model_key=mk, segment=1)
+        elif state == "reprocessed-without-tip-position":
+            # results dropped; the abscissa of the fit may be gone
+            i.apply_preprocessing(["correct_force_offset"])
         elif state == "fitted-unusual":
             # contact point driven towards an end of the approach, few
             # samples in the indentation / baseline part, other abscissa
@@ -513,13 +535,47 @@ def cross_process(rec, items, seed):
         os.unlink(path)
 
 
+CUSTOM_KW = {"AdaBoost": {"n_estimators": 3},
+             "Decision Tree": {"max_depth": 1},
+             "Extra Trees": {"n_estimators": 2, "max_depth": 1},
+             "Gradient Tree Boosting": {"n_estimators": 3},
+             "Random Forest": {"n_estimators": 2, "max_depth": 2},
+             "SVR (linear kernel)": {"C": .01},
+             "SVR (RBF kernel)": {"C": .01}}
+
+
+def custom_rater_elsewhere(rec, rng):
+    """somebody in the same process builds a rater with own regressor
+    keywords (documented: get_rater(..., **reg_kwargs)); ratings of curves
+    must not notice"""
+    from nanite.rate import get_rater
+    name = sorted(CUSTOM_KW)[int(rng.integers(len(CUSTOM_KW)))]
+    try:
+        get_rater(name, training_set="zef18", **CUSTOM_KW[name])
+        rec.event("raters with own regressor keywords built in between")
+    except BaseException as e:  # noqa
+        rec.event("get_rater with keywords raised " + type(e).__name__)
+
+
 def run_shard(rec, tier, seed, shard, nshards):
+    _freeze_regressor_defaults()
+    state0 = core.library_state()
+    try:
+        _run_shard(rec, tier, seed, shard, nshards)
+    finally:
+        core.check_library_state(rec, state0, {"id": [shard, -1]})
+
+
+def _run_shard(rec, tier, seed, shard, nshards):
     scratch = tempfile.mkdtemp(prefix="nv_c09_")
     try:
         tsets = make_training_sets(core.case_rng(seed, ID, shard, 10 ** 6),
                                    scratch)
         xproc = [] if shard < 6 else None
         for i in range(N_CASES[tier]):
+            if i % 3 == 1:
+                custom_rater_elsewhere(rec, core.case_rng(seed, ID, shard,
+                                                          3 * 10 ** 6 + i))
             one_curve(rec, core.case_rng(seed, ID, shard, i), [shard, i],
                       tsets, xproc)
         crosstalk(rec, core.case_rng(seed, ID, shard, 10 ** 6 + 1),
